@@ -709,3 +709,186 @@ func c06SniGen(g *hx.Gen) {
 func init() {
 	hx.Register(&hx.Stream{ID: "C06", Name: "c06.snihost", Gen: c06SniGen, Eval: c06SniEval, Setup: func() error { log.SetOutput(io.Discard); return nil }})
 }
+
+// c06.connect  aesni  sites  cfgs  namehex  pathhex
+//
+//	one client name used as SNI and as Host against httpserver.NewServer(sites with TLS settings):
+//	out = <err:n | plain | nil | any | cfg TAB idx> TAB || TAB <site TAB idx | forbidden | notfound TAB status>
+func c06ConnectEval(f []string) (string, []string) {
+	if len(f) != 5 {
+		return "bad-case", nil
+	}
+	sites := c01ParseSites(f[1])
+	cfgs := c06ParseCfgs(f[2])
+	if len(sites) != len(cfgs) {
+		return "bad-case", nil
+	}
+	if !c06AesniOK(f[0], cfgs) {
+		return "bad-case:aesni field does not describe this CPU", nil
+	}
+	name, path := hx.UnHS(f[3]), hx.UnHS(f[4])
+	var ran []int
+	group := make([]*httpserver.SiteConfig, len(sites))
+	configs := make([]*caskettls.Config, len(sites))
+	for i, s := range sites {
+		c := cfgs[i]
+		c.host = s.addrHost
+		configs[i] = c06Real(c)
+		if c.enabled {
+			caskettls.SetDefaultTLSParams(configs[i])
+		}
+		sc := &httpserver.SiteConfig{Addr: httpserver.Address{Original: s.key, Host: s.addrHost}, TLS: configs[i], FallbackSite: s.fallback}
+		idx := i
+		sc.AddMiddleware(func(next httpserver.Handler) httpserver.Handler {
+			return httpserver.HandlerFunc(func(w http.ResponseWriter, r *http.Request) (int, error) {
+				ran = append(ran, idx)
+				w.WriteHeader(200)
+				return 0, nil
+			})
+		})
+		group[i] = sc
+	}
+	tags := []string{fmt.Sprintf("sites=%d", len(sites))}
+	srv, err := httpserver.NewServer("127.0.0.1:0", group)
+	if err != nil {
+		cls := "1"
+		switch {
+		case strings.Contains(err.Error(), "cannot multiplex"):
+			cls = "0"
+		case strings.Contains(err.Error(), "incompatible TLS configurations"):
+			cls = "2"
+		}
+		return "err:" + cls + "\t||\tnotfound\t0", append(tags, "trivial-rejected")
+	}
+	sel := "plain"
+	req := &http.Request{Method: "GET", Host: name, URL: &url.URL{Path: path}, Proto: "HTTP/1.1", ProtoMajor: 1, ProtoMinor: 1,
+		Header: http.Header{}, RemoteAddr: "192.0.2.1:4000", RequestURI: path}
+	if tc := srv.Server.TLSConfig; tc != nil {
+		req.TLS = &tls.ConnectionState{ServerName: name}
+		hello := &tls.ClientHelloInfo{ServerName: name}
+		idx := -3
+		for try := 0; try < 400; try++ {
+			got, err := tc.GetConfigForClient(hello)
+			if err != nil {
+				return "getconfig-error", tags
+			}
+			cur := -1
+			if got != nil {
+				cur = -2
+				for i, rc := range configs {
+					if caskettls.VerifTLSConfig(rc) == got {
+						cur = i
+					}
+				}
+			}
+			if try > 0 && cur != idx {
+				idx = -4
+				break
+			}
+			idx = cur
+		}
+		switch {
+		case idx == -4:
+			sel = "any"
+			tags = append(tags, "random-failover")
+		case idx == -1:
+			sel = "nil"
+		case idx < 0:
+			sel = "foreign"
+		default:
+			sel = "cfg\t" + strconv.Itoa(idx)
+		}
+	} else {
+		tags = append(tags, "trivial-plaintext")
+	}
+	rec := httptest.NewRecorder()
+	srv.ServeHTTP(rec, req)
+	served := fmt.Sprintf("unexpected:ran=%d,status=%d", len(ran), rec.Code)
+	switch {
+	case len(ran) == 1 && rec.Code == 200:
+		served = "site\t" + strconv.Itoa(ran[0])
+		if cfgs[ran[0]].clientAuth != 0 {
+			tags = append(tags, "served-by-clientauth-site")
+		}
+	case len(ran) == 0 && rec.Code == 403:
+		served = "forbidden"
+	case len(ran) == 0:
+		served = "notfound\t" + strconv.Itoa(rec.Code)
+		tags = append(tags, "notfound")
+	}
+	return sel + "\t||\t" + served, tags
+}
+
+func c06ConnectGen(g *hx.Gen) {
+	aes := b01(cpuid.CPU.AesNi())
+	hostPats := []string{"a.com", "*.a.com", "b.a.com", "*.*.com", "", "0.0.0.0", "[::]", "*", "c.org", "*.org"}
+	names := []string{"a.com", "A.com", "b.a.com", "x.a.com", "x.y.com", "c.org", "q.org", "zzz", "x.y.z.w"}
+	policies := []c06Cfg{
+		{enabled: true, alpn: []string{"h2", "http/1.1"}},
+		{enabled: true, alpn: []string{"h2", "http/1.1"}, clientAuth: 4, clientCerts: []int{0}},
+		{enabled: true, alpn: []string{"h2", "http/1.1"}, clientAuth: 4, clientCerts: []int{1}},
+		{enabled: true, alpn: []string{"h2", "http/1.1"}, clientAuth: 2},
+		{enabled: true, alpn: []string{"h2", "http/1.1"}, clientAuth: 4, clientCerts: []int{0}, disableSNI: true},
+	}
+	emit := func(sites []c01Site, cs []c06Cfg, name, path string) {
+		g.Case(aes, c01EncSites(sites), c06EncCfgs(cs), hx.HS(name), hx.HS(path))
+	}
+	mk := func(key string) c01Site { return c01Site{key, false, c01AddrHost(key)} }
+	// exhaustive: ordered pairs of host patterns x policy pairs x names
+	for _, h1 := range hostPats {
+		for _, h2 := range hostPats {
+			if h1 == h2 {
+				continue
+			}
+			for p1 := range policies {
+				for p2 := range policies {
+					for ni, n := range names {
+						if !g.Thorough() && (p1+p2+ni)%3 != 0 {
+							continue
+						}
+						emit([]c01Site{mk(h1 + ":443"), mk(h2 + ":443")}, []c06Cfg{policies[p1], policies[p2]}, n, "/")
+					}
+				}
+			}
+		}
+	}
+	// the catch-all aliases must agree among themselves (repaired alias class) and with routing
+	for _, trio := range [][]string{{":443", "0.0.0.0:443", "[::]:443"}, {"[::]:443", ":443"}, {"0.0.0.0:443/x", ":443"}} {
+		for p1 := range policies {
+			for _, n := range names {
+				ss := make([]c01Site, len(trio))
+				cs := make([]c06Cfg, len(trio))
+				for i, k := range trio {
+					ss[i] = mk(k)
+					cs[i] = policies[0]
+				}
+				cs[len(cs)-1] = policies[p1]
+				emit(ss, cs, n, "/x")
+			}
+		}
+	}
+	N := 3000
+	if g.Thorough() {
+		N = 80000
+	}
+	for it := 0; it < N; it++ {
+		n := 1 + g.Rng.Intn(5)
+		sites := make([]c01Site, n)
+		cs := make([]c06Cfg, n)
+		for i := range sites {
+			sites[i] = mk(hx.Pick(g.Rng, hostPats) + hx.Pick(g.Rng, []string{"", ":443", ":443/x", "/x/y"}))
+			cs[i] = policies[g.Rng.Intn(len(policies))]
+			if g.Rng.Chance(3, 5) {
+				cs[i] = policies[0]
+			}
+			if g.Rng.Chance(1, 40) {
+				cs[i].enabled = false
+			}
+		}
+		emit(sites, cs, hx.Pick(g.Rng, names), hx.Pick(g.Rng, []string{"/", "/x", "/x/y/z"}))
+	}
+}
+
+func init() {
+	hx.Register(&hx.Stream{ID: "C06", Name: "c06.connect", Gen: c06ConnectGen, Eval: c06ConnectEval, Setup: c06Setup, Teardown: c06Teardown})
+}
